@@ -10,11 +10,12 @@ if ! git apply "$P" 2>/dev/null; then
 fi
 ( export GOFLAGS=-mod=mod GOPROXY=off GOSUMDB=off GOTOOLCHAIN=local; go build ./... ) || { echo "SEED-RESULT build-failed"; git checkout -- .; exit 7; }
 cd /verif
+rm -rf /tmp/seedcheck.$$.evidence; cp -r /verif/evidence /tmp/seedcheck.$$.evidence
 ./run "$ID" "$TIER" > /tmp/seedcheck.$$.log 2>&1
 rc=$?
 tail -n ${SEED_TAIL:-6} /tmp/seedcheck.$$.log
 rm -f /tmp/seedcheck.$$.log
 git -C /repo checkout -- .
 git -C /repo status --porcelain
-git -C /verif checkout -- evidence 2>/dev/null
+rm -rf /verif/evidence; mv /tmp/seedcheck.$$.evidence /verif/evidence
 echo "SEED-RESULT exit=$rc"
